@@ -2,10 +2,10 @@ package main
 
 // C04: "violate exactly one requirement, re-sign everything with the attacker's own attestation key".
 var formatRequirementDevs = map[string][]string{
-	"packed-x5c":        {"x5c.v1", "x5c.isCA", "x5c.noC", "x5c.noO", "x5c.badOU", "x5c.noCN", "x5c.emptyC", "x5c.emptyO", "x5c.emptyCN", "x5c.aaguidMismatch", "x5c.aaguidCritical", "x5c.aaguidMalformed", "x5c.empty", "x5c.leafSecond"},
+	"packed-x5c":        {"x5c.v1", "x5c.isCA", "x5c.noC", "x5c.noO", "x5c.badOU", "x5c.noCN", "x5c.emptyC", "x5c.emptyO", "x5c.emptyCN", "x5c.aaguidMismatch", "x5c.aaguidCritical", "x5c.aaguidMalformed", "x5c.aaguidShortZeroPadded", "x5c.empty", "x5c.leafSecond"},
 	"packed-self":       {"self.algMismatch", "sig.otherKey"},
 	"fido-u2f":          {"u2f.twoCerts", "u2f.noCerts", "u2f.certP384", "u2f.certRSA", "u2f.credNotEC2"},
-	"tpm":               {"tpm.badMagic", "tpm.badType", "tpm.wrongName", "tpm.nameAlgMismatch", "tpm.nameAlgForeignSameSize", "x5c.leafSecond", "tpm.nameHandle", "tpm.nameEmpty", "tpm.pubAreaOtherKey", "tpm.v1", "tpm.isCA", "tpm.noEKU", "tpm.noSAN", "tpm.sanUnknownVendor", "tpm.sanNoModel", "tpm.sanNoVersion", "tpm.sanNoManufacturer", "tpm.extraDataOther", "tpm.noCerts"},
+	"tpm":               {"tpm.badMagic", "tpm.badType", "tpm.wrongName", "tpm.nameAlgMismatch", "tpm.nameAlgForeignSameSize", "x5c.leafSecond", "tpm.nameHandle", "tpm.nameEmpty", "tpm.pubAreaOtherKey", "tpm.v1", "tpm.isCA", "tpm.noEKU", "tpm.noSAN", "tpm.sanUnknownVendor", "tpm.sanNoModel", "tpm.sanNoVersion", "tpm.sanNoManufacturer", "tpm.extraDataOther", "tpm.extraDataShort", "tpm.noCerts"},
 	"android-key":       {"ak.certKeyOther", "ak.allAppsSW", "ak.allAppsTEE", "ak.noSign", "ak.originOther", "ak.challengeOther", "ak.noExtension", "x5c.leafSecond"},
 	"apple":             {"apple.certKeyOther", "apple.nonceOther", "apple.noNonce", "x5c.leafSecond"},
 	"android-safetynet": {"sn.wrongHost", "sn.untrustedChain", "sn.nonceOther", "sn.noX5c"},
@@ -239,6 +239,26 @@ func memberProduct(c *Ctx, prefix string) {
 				}
 				if key != "ver" {
 					op["_expectOK"] = false // every member other than the version string is needed for acceptance
+				}
+				executors["attest"](c, prefix+"."+f, op)
+			}
+			// the member's KEY replaced: null / undefined (the CBOR library then files the value under the previous member's key, or "" for
+			// the first), an integer, a byte string, a boolean
+			for _, kr := range [][]byte{{0xf6}, {0xf7}, cborInt(1), cborBytes([]byte(key)), {0xf5}} {
+				var flat [][]byte
+				for j, e := range kvs {
+					if j == i {
+						flat = append(flat, kr, e.v)
+					} else {
+						flat = append(flat, e.k, e.v)
+					}
+				}
+				mb := *b
+				mb.Stmt = cborMap(flat...)
+				op := mb.AttestOp(fmtID(f))
+				op["_dev"] = "key-" + key
+				if key != "ver" {
+					op["_expectOK"] = false
 				}
 				executors["attest"](c, prefix+"."+f, op)
 			}
